@@ -4,6 +4,8 @@ Props/C05.lean; nothing here weakens them.
 -/
 import FAVerif.Models.Printer
 import FAVerif.Models.RefAlloc
+import FAVerif.Models.ConstName
+import Std.Data.String.ToNat
 
 namespace FAVerif.Printer
 
@@ -646,3 +648,32 @@ theorem guardedRun_of_B : ∀ (cs : List Call) (s : RState), guardedRunB s cs = 
     exact ⟨guard_of_guardB s c h.1, ih _ h.2⟩
 
 end FAVerif.RefAlloc
+
+
+/-! ## constant names -/
+
+namespace FAVerif.ConstName
+
+theorem identInt_inj (a b : Int) (h : identInt a = identInt b) : a = b := by
+  unfold identInt at h
+  have key : ∀ n m : Nat, toString n = toString m → n = m := fun n m hh => Nat.repr_injective hh
+  have negne : ∀ n m : Nat, "neg" ++ toString n ≠ toString m := by
+    intro n m hh
+    have h1 : (toString m).toList = 'n' :: 'e' :: 'g' :: (toString n).toList := by
+      rw [← hh]; simp [String.toList_append]
+    have hd : ∀ c ∈ (toString m).toList, c.isDigit = true := by
+      intro c hc
+      have : (toString m).toList = Nat.toDigits 10 m := by simp [toString, Nat.repr]
+      rw [this] at hc
+      exact Nat.isDigit_of_mem_toDigits (by decide) (by decide) hc
+    have := hd 'n' (by rw [h1]; simp)
+    simp at this
+  split at h <;> split at h
+  · have := key _ _ (String.append_right_inj _ |>.1 h)
+    omega
+  · exact absurd h (negne _ _)
+  · exact absurd h.symm (negne _ _)
+  · have := key _ _ h
+    omega
+
+end FAVerif.ConstName
